@@ -40,6 +40,8 @@ def mk_id(hs, spec):
         return spec['s']
     if 'i' in spec:
         return spec['i']
+    if 'f' in spec:
+        return spec['f']
     if 'ref' in spec:
         return hs.Ref(spec['ref'])
     if 'refv' in spec:
@@ -84,7 +86,8 @@ class GridMachine(BaseCheck):
                 idspec = k.choice([{'s': 'r%d' % j}, {'s': 'r%d' % j}, {'s': 'r%d' % (j // 2)}, None])
             else:
                 idspec = k.choice([{'s': 'r%d' % j}, {'i': j}, {'i': j // 2}, {'ref': 'r%d' % j},
-                                   {'ref': 'r%d' % (j // 2)}, {'refv': 'r%d' % j}, {'s': '%d' % j}, None])
+                                   {'ref': 'r%d' % (j // 2)}, {'refv': 'r%d' % j}, {'s': '%d' % j}, None,
+                                   {'f': j + 0.5}, {'f': float(j // 2)}, {'s': ''}])
             rows.append({'id': idspec, 'n': j if k.random() < 0.8 else 0, 'mk': k.random() < 0.5})
         if cls != 'unique-str' and k.random() < 0.5:
             rows[-1] = dict(rows[0])   # equal but not identical
